@@ -2,6 +2,7 @@ package scen
 
 import (
 	"bytes"
+	"encoding/base64"
 	"fmt"
 	"io"
 	"net/http"
@@ -186,6 +187,30 @@ func c18MdLen(tp *simkit.Tape, small bool) int {
 	return tp.Choose(200, "mdlen")
 }
 
+
+// Sealed requests produced once by the library's constructors (identity V1,
+// multihash of "canned", context "canned-ctx") and committed here: a process
+// that only ever reads requests - an indexer - must accept them, also when
+// it has not built a request itself. Each worker process starts with this.
+const c18CannedIngest = "CiQIARIgjOeS+6JwzK7cxd0Me21mWG0+ROUyb4p/q7gjTqfbjL8SFmluZGV4ZXItaW5nZXN0LXJlcXVlc3Qa9gF7Ik11bHRpaGFzaCI6IkVpQjIwOW16R0h4N21JYnIyYTlSdDhFY1dpS04xcjhUQ1RNT09iSi84VDRoR3c9PSIsIlByb3ZpZGVySUQiOiIxMkQzS29vV0tKUTN4Z1FxdFppbWpZOU5kTUViVzllcWVBSnZ0VXZ0RmUxelYzajNzU0NFIiwiQ29udGV4dElEIjoiWTJGdWJtVmtMV04wZUE9PSIsIk1ldGFkYXRhIjoiZ0JJPSIsIkFkZHJzIjpbIi9pcDQvOC44LjguOC90Y3AvMzEwNC9odHRwIl0sIlNlcSI6MTc5MDk4NjIzNzg1NDg3MzEzOH0qQHLklAKg3lUbt2oLxqvB5fv4pbbZzM2uEdmGZ8GlebWwJwDTjMJ5YAxUPM/JJ+rzs5dfOYGIHawlFVXmNXJdcgI="
+const c18CannedRegister = "CiQIARIgjOeS+6JwzK7cxd0Me21mWG0+ROUyb4p/q7gjTqfbjL8SAgMBGkAKJgAkCAESIIznkvuicMyu3MXdDHttZlhtPkTlMm+Kf6u4I06n24y/EK/e28foj7ftGBoMCgoECAgICAYMIOADKkAWILUgZfpCyTJZZVlV00K9MGtw2Q9+Ifo8DsC17lp1yC5TwE3qhVbd7KR+jSq3z+rQIq3NlayRNRbBOTDcMh0L"
+
+func c18Canned(r *simkit.Run) {
+	id := Identity("V1")
+	ib, _ := base64.StdEncoding.DecodeString(c18CannedIngest)
+	if g, err := model.ReadIngestRequest(ib); err != nil {
+		r.Violate("c18.rejected", "an ingest request built by the library's constructor in another process is rejected by a reader that has built none itself: %v", err)
+	} else if g.ProviderID != id.ID || string(g.ContextID) != "canned-ctx" || len(g.Addrs) != 1 {
+		r.Violate("c18.accepted", "a stored ingest request reads back with other fields than it was built from")
+	}
+	rb, _ := base64.StdEncoding.DecodeString(c18CannedRegister)
+	if g, err := model.ReadRegisterRequest(rb); err != nil {
+		r.Violate("c18.rejected", "a register request built by the library's constructor in another process is rejected by a reader that has built none itself: %v", err)
+	} else if g.PeerID != id.ID || len(g.Addrs) != 1 {
+		r.Violate("c18.accepted", "a stored register request reads back with other fields than it was built from")
+	}
+}
+
 func kindName(ingest bool) string {
 	if ingest {
 		return "ingest"
@@ -195,6 +220,7 @@ func kindName(ingest bool) string {
 
 func runC18(r *simkit.Run, c Cfg) {
 	tp := r.Tape
+	c18Canned(r)
 	net := simkit.NewNet(r)
 	http.DefaultTransport = net.Transport()
 	ep := &adminEndpoint{r: r}
